@@ -7,6 +7,10 @@ PROP = ["NoWipe", "OnlyGoodOverwrites", "NoRecomputeOfComplete"]
 
 
 def job(chk, label, plan, inv=INV, prop=PROP, timeout=900, expect=None, **c):
+    if isinstance(expect, str):
+        # a vacuity job names the clause that MUST fail: check only that one (with several workers TLC may otherwise report
+        # another clause that the switched design also breaks, depending on the order in which states are explored)
+        inv, prop = ([expect] if expect in INV + list(inv) else []), ([expect] if expect in PROP else [])
     r = run_tlc("MC", cfg=dict(spec="Spec", constants=dagmc.constants(**c), invariants=inv, properties=prop, view="View",
                                deadlock=False),
                 extra_modules={"MC.tla": dagmc.mc_module("MC", plan)}, timeout=timeout, coverage=(expect is None))
